@@ -250,7 +250,7 @@ func mksrc(src string) {
 	for _, t := range []struct {
 		file, top, tag string
 		indexFirst     bool
-	}{{"m2.tar", "M2", "m2", true}, {"m3r.tar", "M3", "m3", false}, {"ix.tar", "IX", "ix", true}} {
+	}{{"m1.tar", "M1", "m1", true}, {"m2.tar", "M2", "m2", true}, {"m3r.tar", "M3", "m3", false}, {"ix.tar", "IX", "ix", true}} {
 		var buf bytes.Buffer
 		tw := tar.NewWriter(&buf)
 		add := func(name string, b []byte) {
@@ -502,7 +502,7 @@ func setup(ctx context.Context, dir, src, state string) error {
 		return os.MkdirAll(dir, 0o777)
 	case "P1":
 		err = cp("v1", "m1")
-	case "P2", "PT":
+	case "P2", "PT", "L1Mp", "L4Mm", "L4Mp", "L8Mp", "L16Mm", "L16Mp":
 		if err = cp("v1", "m1"); err == nil {
 			err = cp("v2", "m2")
 		}
@@ -529,6 +529,29 @@ func setup(ctx context.Context, dir, src, state string) error {
 	if err = rc.Close(ctx, tref(dir, "")); err != nil {
 		return err
 	}
+	if size, ok := bigIndex[state]; ok {
+		// a layout with a large tag table: index.json padded with an annotation to exactly `size` bytes
+		// (thousands of tags or verbose entries give the same file size; the content stays two tags)
+		fn := filepath.Join(dir, "index.json")
+		b, errR := os.ReadFile(fn)
+		if errR != nil {
+			return errR
+		}
+		var idx map[string]any
+		if err = json.Unmarshal(b, &idx); err != nil {
+			return err
+		}
+		idx["annotations"] = map[string]string{"c07.pad": ""}
+		base := len(mustJSON(idx))
+		idx["annotations"] = map[string]string{"c07.pad": strings.Repeat("p", size-base)}
+		out := mustJSON(idx)
+		if len(out) != size {
+			return fmt.Errorf("padded index has %d bytes, wanted %d", len(out), size)
+		}
+		if err = os.WriteFile(fn, out, 0o644); err != nil {
+			return err
+		}
+	}
 	if state == "PT" {
 		// leftovers of an earlier interrupted writer: stale temp files and an unreferenced blob
 		writeFile(filepath.Join(dir, "index.json.424242.tmp"), []byte(`{"schemaVersion":2,"manif`))
@@ -537,6 +560,10 @@ func setup(ctx context.Context, dir, src, state string) error {
 	}
 	return nil
 }
+
+// start states with a large index.json: just above / below round sizes
+var bigIndex = map[string]int{"L1Mp": 1<<20 + 4096, "L4Mm": 4<<20 - 4096, "L4Mp": 4<<20 + 4096, "L8Mp": 8<<20 + 4096,
+	"L16Mm": 16<<20 - 4096, "L16Mp": 16<<20 + 4096}
 
 // ---------------------------------------------------------------- probe: fresh client facts
 
